@@ -31,8 +31,16 @@ func TestMain(m *testing.M) { vk.Main(m) }
 // Field names repeat at every depth (Name, Arr, M, IM, Any, hidden); p is the
 // spelled path of the struct itself, used by the methods to spell their result.
 
+type Inner struct {
+	Name string
+	p    string
+}
+
+func (n Inner) Hello() string { return n.p + ".Hello()" }
+
 type Leaf struct {
 	Name   string
+	In     Inner
 	PName  *string
 	Tags   []string
 	Arr    [2]string
@@ -43,7 +51,7 @@ type Leaf struct {
 	p      string
 }
 
-func (l Leaf) Hello() string         { return l.p + ".Hello()" }
+func (l Leaf) Hello() string { return l.p + ".Hello()" }
 func (l *Leaf) PHello() string {
 	if l == nil {
 		return "nil.PHello()"
@@ -69,7 +77,7 @@ type Mid struct {
 	v       int
 }
 
-func (m Mid) Hello() string               { return m.p + ".Hello()" }
+func (m Mid) Hello() string { return m.p + ".Hello()" }
 func (m *Mid) PHello() string {
 	if m == nil {
 		return "nil.PHello()"
@@ -87,10 +95,10 @@ func (m *Mid) GetPLeaf() *Leaf {
 	l := mkLeaf(m.p+".GetPLeaf()", m.v)
 	return &l
 }
-func (m Mid) GetNil() *Leaf               { return nil }
-func (m Mid) GetLeaves() []Leaf           { return mkLeaves(m.p+".GetLeaves()", 2, m.v) }
-func (m Mid) GetM() map[string]Leaf       { return mkLeafMap(m.p+".GetM()", m.v, "a", "b") }
-func (m Mid) secret() string              { return m.p + ".secret()" }
+func (m Mid) GetNil() *Leaf         { return nil }
+func (m Mid) GetLeaves() []Leaf     { return mkLeaves(m.p+".GetLeaves()", 2, m.v) }
+func (m Mid) GetM() map[string]Leaf { return mkLeafMap(m.p+".GetM()", m.v, "a", "b") }
+func (m Mid) secret() string        { return m.p + ".secret()" }
 
 type Root struct {
 	Name   string
@@ -126,7 +134,7 @@ func (r Root) secret() string { return r.p + ".secret()" }
 //	           one-key maps, Any holds Mid / *Leaf / []string, PLeaf is nil
 
 func mkLeaf(p string, v int) Leaf {
-	l := Leaf{p: p, Name: p + ".Name", hidden: p + ".hidden"}
+	l := Leaf{p: p, Name: p + ".Name", hidden: p + ".hidden", In: Inner{Name: p + ".In.Name", p: p + ".In"}}
 	pn := p + ".PName"
 	l.PName = &pn
 	l.Arr = [2]string{p + ".Arr[0]", p + ".Arr[1]"}
@@ -532,6 +540,9 @@ func apply(c cur, s Step) (out cur, why string, ptrOnTemp bool) {
 			}
 		}
 		if !m.IsValid() {
+			if c.v.Kind() == reflect.Ptr {
+				return c, "unknown-method-on-pointer", false
+			}
 			return c, "unknown-member", false
 		}
 		mt := m.Type()
@@ -646,17 +657,93 @@ func (c Case) sig() string {
 	return sb.String()
 }
 
-// knownOpen: shape classes on which plush currently answers a COMPLETABLE path
-// with a clean failure (AF-22), or panics (negative index). Empty the table
-// when they are fixed; entries of known_findings.json (r.OpenClass) add to it.
-var knownOpen = map[string]bool{}
+// knownOpen: path-shape classes on which plush is currently known to violate
+// C11 (see the report / known findings). The generators still produce them:
+//
+//	wrong-value/...    the case is skipped before rendering (plush answers with ANOTHER element's value)
+//	clean-failure/...  a clean failure (error or empty output) of a COMPLETABLE path is tolerated;
+//	                   a wrong value or a panic inside the class is still a violation
+//	panic/...          a panic is tolerated
+//
+// every tolerated / skipped case is counted with r.Exclude(class). Empty the
+// table when the defects are fixed; open entries of known_findings.json
+// (r.OpenClass) add to it.
+var knownOpen = map[string]bool{
+	"wrong-value/fields-dropped-before-call": true,
+	"wrong-value/unknown-method-on-pointer":  true,
+	"clean-failure/index-then-method":        true,
+	"clean-failure/call-call-index":          true,
+	"clean-failure/for-over-chained-calls":   true,
+	"panic/negative-index":                   true,
+	"panic/method-on-nil-pointer":            true,
+}
 
 func isOpen(r *vk.Run, class string) bool { return knownOpen[class] || r.OpenClass(class) }
 
-// cleanFailClass names the shape class of a completable path (placeholder until
-// the failing shapes have been measured).
-func (c Case) cleanFailClass() string {
-	return "clean-failure/" + c.sig()
+func segSig(seg []Step) string {
+	b := make([]byte, len(seg))
+	for i, s := range seg {
+		switch {
+		case s.X:
+			b[i] = 'X'
+		case s.M != "":
+			b[i] = 'M'
+		default:
+			b[i] = 'F'
+		}
+	}
+	return string(b)
+}
+
+var shapeRules = []struct {
+	class    string
+	re       *regexp.Regexp
+	iterable bool // the rule applies to the expression used as a for iterable only
+}{
+	// x.A().F.B() is evaluated as x.A().B(): the fields between two calls are dropped
+	// (also x[i].F.B() when x is a plain variable: evaluated as x[i].B())
+	{"wrong-value/fields-dropped-before-call", regexp.MustCompile(`MF+M|^XF+M`), false},
+	// a[i].M(), a[i].F.M(), a[i].M().F: "unknown identifier" (AF-22)
+	{"clean-failure/index-then-method", regexp.MustCompile(`X.*M`), false},
+	// x.A().B()[i]: "invalid nested index access"
+	{"clean-failure/call-call-index", regexp.MustCompile(`MMX`), false},
+	// for (k, v) in x.A().B() { : the block is swallowed by the chained call
+	{"clean-failure/for-over-chained-calls", regexp.MustCompile(`M.*M$`), true},
+}
+
+// shapeClasses lists the known-shape classes this case belongs to (by syntax
+// alone, whatever the data).
+func (c Case) shapeClasses() []string {
+	var out []string
+	segs := c.segments()
+	iter := -1
+	for i, k := range c.Cuts {
+		if k.For {
+			iter = i
+		}
+	}
+	for _, rule := range shapeRules {
+		for i, seg := range segs {
+			if rule.iterable && i != iter {
+				continue
+			}
+			if rule.re.MatchString(segSig(seg)) {
+				out = append(out, rule.class)
+				break
+			}
+		}
+	}
+	return out
+}
+
+// tolerated: the first open class of the given kind the case belongs to.
+func (c Case) tolerated(r *vk.Run, kind string) (string, bool) {
+	for _, k := range c.shapeClasses() {
+		if strings.HasPrefix(k, kind+"/") && isOpen(r, k) {
+			return k, true
+		}
+	}
+	return "", false
 }
 
 // ---- the oracle ----------------------------------------------------------------------
@@ -732,6 +819,10 @@ func checkCase(r *vk.Run, c Case) (out *vk.Fail) {
 			noteBad(c, out)
 		}
 	}()
+	if cls, ok := c.tolerated(r, "wrong-value"); ok {
+		r.Exclude(cls)
+		return nil
+	}
 	root := mkRoot(c.Variant)
 	start := cur{reflect.ValueOf(root), true}
 	if !c.Ptr {
@@ -742,25 +833,21 @@ func checkCase(r *vk.Run, c Case) (out *vk.Fail) {
 	path := spellPath(c.Steps)
 	where := fmt.Sprintf("%s  [data variant %d, %s = %s]", src, c.Variant, c.Root, map[bool]string{true: "*Root", false: "Root"}[c.Ptr])
 
-	neg := false
-	for _, s := range c.Steps {
-		for _, a := range s.A {
-			if s.X && a.Int && a.I < 0 {
-				neg = true
-			}
-		}
-	}
 	if res.Panicked() {
 		shapeStats.add(sig, 4)
+		msg := fmt.Sprint(res.Panic)
 		cls := ""
-		if neg {
+		switch {
+		case c.hasNegativeIndex() && strings.Contains(msg, "index out of range"):
 			cls = "panic/negative-index"
-			if isOpen(r, cls) {
-				r.Exclude(cls)
-				return nil
-			}
+		case refNilAtMethod(start, c) && (strings.Contains(msg, "on zero Value") || strings.Contains(msg, "using nil")):
+			cls = "panic/method-on-nil-pointer"
 		}
-		return fail(cls, "%s: %s", where, res)
+		if cls != "" && isOpen(r, cls) {
+			r.Exclude(cls)
+			return nil
+		}
+		return fail("", "%s: %s", where, res)
 	}
 
 	fc := c.forCut()
@@ -769,6 +856,62 @@ func checkCase(r *vk.Run, c Case) (out *vk.Fail) {
 		return judge(r, c, w, res, path, where, fail)
 	}
 	return judgeFor(r, c, fc, start, res, where, fail)
+}
+
+func (c Case) hasNegativeIndex() bool {
+	for _, s := range c.Steps {
+		if s.X && s.A[0].Int && s.A[0].I < 0 {
+			return true
+		}
+	}
+	return false
+}
+
+// refNilAtMethod: in the reference walk a method call meets a nil pointer (for
+// a loop: for some element).
+func refNilAtMethod(start cur, c Case) bool {
+	at := func(from cur, steps []Step) (cur, bool, bool) { // value, completed, nil-at-method
+		for _, s := range steps {
+			var why string
+			if from, why, _ = apply(from, s); why != "" {
+				return from, false, (why == "nil-pointer" || why == "unspec:ptr-method-on-nil") && s.M != ""
+			}
+		}
+		return from, true, false
+	}
+	fc := c.forCut()
+	if fc < 0 {
+		_, _, n := at(start, c.Steps)
+		return n
+	}
+	coll, ok, n := at(start, c.Steps[:fc])
+	if !ok {
+		return n
+	}
+	var why string
+	if coll, why = unwrap(coll); why == "" {
+		coll, why = deref(coll)
+	}
+	if why != "" {
+		return false
+	}
+	var els []reflect.Value
+	switch coll.v.Kind() {
+	case reflect.Slice, reflect.Array:
+		for i := 0; i < coll.v.Len(); i++ {
+			els = append(els, coll.v.Index(i))
+		}
+	case reflect.Map:
+		for _, k := range coll.v.MapKeys() {
+			els = append(els, coll.v.MapIndex(k))
+		}
+	}
+	for _, e := range els {
+		if _, _, n := at(cur{e, true}, c.Steps[fc+1:]); n {
+			return true
+		}
+	}
+	return false
 }
 
 type failFn func(class, f string, a ...interface{}) *vk.Fail
@@ -832,12 +975,11 @@ func judge(r *vk.Run, c Case, w walkRes, res vk.Res, path, where string, fail fa
 				return nil
 			}
 			shapeStats.add(sig, 1)
-			cls := c.cleanFailClass()
-			if isOpen(r, cls) {
+			if cls, ok := c.tolerated(r, "clean-failure"); ok {
 				r.Exclude(cls)
 				return nil
 			}
-			return fail(cls, "%s: the path is completable (Go navigation gives %q) but plush gave %s", where, path, res)
+			return fail("", "%s: the path is completable (Go navigation gives %q) but plush gave %s", where, path, res)
 		}
 		shapeStats.add(sig, 3)
 		return fail("", "%s: WRONG VALUE: Go navigation gives %q, plush gave %s", where, path, res)
@@ -849,6 +991,10 @@ func judge(r *vk.Run, c Case, w walkRes, res vk.Res, path, where string, fail fa
 			return nil
 		}
 		shapeStats.add(sig, 3)
+		if k := "wrong-value/" + w.why; w.why == "unknown-method-on-pointer" && isOpen(r, k) {
+			r.Exclude(k)
+			return nil
+		}
 		return fail("", "%s: navigation cannot be completed (%s) but plush rendered %s instead of failing or rendering nothing", where, w.why, res)
 	}
 }
@@ -873,6 +1019,10 @@ func judgeFor(r *vk.Run, c Case, fc int, start cur, res vk.Res, where string, fa
 				return nil
 			}
 			shapeStats.add(sig, 3)
+			if k := "wrong-value/" + why; why == "unknown-method-on-pointer" && isOpen(r, k) {
+				r.Exclude(k)
+				return nil
+			}
 			return fail("", "%s: the iterable cannot be reached (%s) but plush rendered %s", where, why, res)
 		}
 	}
@@ -930,6 +1080,10 @@ func judgeFor(r *vk.Run, c Case, fc int, start cur, res vk.Res, where string, fa
 		default:
 			allOK = false
 			want[e.key] = ""
+			if k := "wrong-value/" + w.why; w.why == "unknown-method-on-pointer" && isOpen(r, k) {
+				r.Exclude(k)
+				return nil
+			}
 		}
 	}
 	if anyUnspec {
@@ -949,12 +1103,11 @@ func judgeFor(r *vk.Run, c Case, fc int, start cur, res vk.Res, where string, fa
 	if res.Err != nil {
 		if allOK && len(els) > 0 {
 			shapeStats.add(sig, 1)
-			k := c.cleanFailClass()
-			if isOpen(r, k) {
+			if k, ok := c.tolerated(r, "clean-failure"); ok {
 				r.Exclude(k)
 				return nil
 			}
-			return fail(k, "%s: every element's path is completable (%v) but plush gave %s", where, want, res)
+			return fail("", "%s: every element's path is completable (%v) but plush gave %s", where, want, res)
 		}
 		shapeStats.add(sig, 2)
 		return nil
@@ -1003,12 +1156,11 @@ func judgeFor(r *vk.Run, c Case, fc int, start cur, res vk.Res, where string, fa
 	}
 	if clean {
 		shapeStats.add(sig, 1)
-		k := c.cleanFailClass()
-		if isOpen(r, k) {
+		if k, ok := c.tolerated(r, "clean-failure"); ok {
 			r.Exclude(k)
 			return nil
 		}
-		return fail(k, "%s: completable element paths rendered empty: want %v, got %q", where, want, res.Out)
+		return fail("", "%s: completable element paths rendered empty: want %v, got %q", where, want, res.Out)
 	}
 	shapeStats.add(sig, 0)
 	return nil
